@@ -1,1 +1,114 @@
-From Ring Require Import ChanModel ChanSync.
+(* Properties_C03.v -- C03: a blocked writer always resumes when space is released or writes are refused;
+   readers that keep reading reach the drained state in a bounded number of calls.
+   Model: ChanSync (one transition per block between scheduling points; the channel state and the critical
+   sections are ChanModel's).  Thread 0 is the writer; every other thread reads through registered readers or
+   toggles accept.  [srun true sp] runs ANY schedule (list of thread choices, any length), with (sp = true) or
+   without spurious wake-ups; it is None only when the schedule picks a thread that is not enabled.
+   Liveness is stated as: "the wait condition being false implies the writer has been notified, the lock is
+   free, and the writer's own next step returns" -- i.e. bounded progress (one own step); that an enabled
+   thread is eventually scheduled is the OS's fairness, assumed. *)
+From Coq Require Import ZArith List Bool Lia.
+From Ring Require Import ChanModel ChanGhost ChanInv ChanLog ChanStream ChanTheorems ChanSync ChanSyncProofs ChanDrain.
+Import ListNotations.
+Local Open Scope Z_scope.
+
+(* No lost wake-up: in every state of every schedule, a writer asleep WITHOUT a pending notification still has
+   a true wait condition (writes accepted and no room for its request).  [status_ok]: no reader has been driven
+   into channel.c's error branches (double map), which C01 shows unreachable for well-behaved readers. *)
+Theorem C03_no_lost_wakeup : forall sp c k scripts sched s th n rest,
+  scripts_ok (joins (init c) k) scripts -> srun true sp (sinit c k scripts) sched = Some s ->
+  nth_error (thrs s) 0 = Some th -> tpc th = PParked false -> tscript th = OWriteMap n :: rest ->
+  status_ok (ch s) -> blocked (ch s) n.
+Proof. intros sp c k scripts sched s th n rest Hs E.
+  exact (no_lost_wakeup s th n rest (reachable_J sp c k scripts sched s Hs E)). Qed.
+Print Assumptions C03_no_lost_wakeup.
+
+(* Release resumes / refusal returns, for every instant: whenever the request could proceed (space released by
+   readers, or writes refused), a parked writer HAS been notified, nobody holds the lock, and its next own step
+   returns from channel_write_map (with a region or NULL), leaving it at its next operation. *)
+Theorem C03_parked_writer_resumes : forall sp c k scripts sched s th b n rest,
+  scripts_ok (joins (init c) k) scripts -> srun true sp (sinit c k scripts) sched = Some s ->
+  nth_error (thrs s) 0 = Some th -> tpc th = PParked b -> tscript th = OWriteMap n :: rest ->
+  status_ok (ch s) -> ~ blocked (ch s) n ->
+  b = true /\ lk s = None /\
+  exists s' w, sstep true sp s 0 = Some (s', mkLabel KWait (Some (ResW w))) /\ w <> WBlocked /\
+    exists th', nth_error (thrs s') 0 = Some th' /\ tscript th' = rest.
+Proof. intros sp c k scripts sched s th b n rest Hs E.
+  exact (parked_writer_resumes sp s th b n rest (reachable_J sp c k scripts sched s Hs E)). Qed.
+Print Assumptions C03_parked_writer_resumes.
+
+(* Refusal: once writes are refused the writer is neither asleep un-notified nor between its check and its
+   sleep, and no request is blocked -- whatever the order of the refusal and the writer's check-then-sleep. *)
+Theorem C03_refusal_returns : forall sp c k scripts sched s th,
+  scripts_ok (joins (init c) k) scripts -> srun true sp (sinit c k scripts) sched = Some s ->
+  nth_error (thrs s) 0 = Some th -> accepting (ch s) = false -> status_ok (ch s) ->
+  tpc th <> PPrewait /\ tpc th <> PParked false /\ lk s = None /\ forall n, ~ blocked (ch s) n.
+Proof. intros sp c k scripts sched s th Hs E Hn Ha Hok.
+  destruct (refused_not_asleep s th (reachable_J sp c k scripts sched s Hs E) Hn Ha Hok) as (A & B & C).
+  repeat split; auto. intros n. apply refused_not_blocked. exact Ha. Qed.
+Print Assumptions C03_refusal_returns.
+
+(* The channel lock is only ever held across scheduling points by the writer at its pre-wait point, and that
+   step is always enabled and releases it: no thread waits for the lock forever. *)
+Theorem C03_lock_released : forall sp c k scripts sched s t,
+  scripts_ok (joins (init c) k) scripts -> srun true sp (sinit c k scripts) sched = Some s ->
+  lk s = Some t ->
+  t = 0%nat /\ exists s' l, sstep true sp s 0 = Some (s', l) /\ lk s' = None.
+Proof. intros sp c k scripts sched s t Hs E Hl.
+  destruct (lock_only_at_prewait s t (reachable_J sp c k scripts sched s Hs E) Hl) as (-> & th & n & rest & Hn & Hp & _).
+  split; auto. exact (prewait_releases sp s th Hn Hp). Qed.
+Print Assumptions C03_lock_released.
+
+(* A request below the capacity can only wait on readers, never on itself: with every reader drained it fits. *)
+Theorem C03_space_eventually : forall c n,
+  0 <= n < cap c -> (forall r, In r (rds c) -> hpos r = head c /\ hcyc r = cyc c) -> ~ blocked c n.
+Proof. exact space_when_drained. Qed.
+Print Assumptions C03_space_eventually.
+
+(* Readers reach the drained state in a bounded number of calls: from ANY reachable channel state, with no commit
+   in between, two rounds of (map; unmap everything) leave the reader's cursor at the end of the log and the
+   third read is empty. *)
+Theorem C03_drain_bound : forall c ops g i r,
+  0 < c -> grun (ginit c) ops = Some g -> nth_error (rds (cs g)) i = Some r -> rmapped r = false ->
+  let g2 := round (round g i) i in
+  exists r2, nth_error (rds (cs g2)) i = Some r2 /\ idx g2 r2 = loglen g2 /\ loglen g2 = loglen g /\
+    forall g3 rr, gstep g2 (OReadMap i) = (g3, ResR rr) -> rlen rr = 0.
+Proof. intros c ops g i r Hc E. exact (drained_after_two_rounds g i r (reachable_inv c ops g Hc E)). Qed.
+Print Assumptions C03_drain_bound.
+
+(* ---- the lock in channel_accept_writes is necessary: with the former code (flag written and notified without
+   the lock) this 11-step schedule leaves the writer asleep, un-notified, although writes are refused (D2) ---- *)
+Definition d2_scripts : list (list op) := [[OWriteMap 3; OCommit; OWriteMap 3; OCommit]; [OAccept false]].
+Definition d2_sched : list nat := [0; 0; 0; 0; 0; 0; 0; 1; 1; 1; 0]%nat.
+
+Example C03_no_lost_wakeup_refuted_without_lock :
+  match srun false false (sinit 4 1 d2_scripts) d2_sched with
+  | Some s => accepting (ch s) = false /\
+              (exists th, nth_error (thrs s) 0 = Some th /\ tpc th = PParked false) /\
+              forallb (fun t => negb (enabledb false false s t)) [0; 1]%nat = true
+  | None => False
+  end.
+Proof. vm_compute. split; [reflexivity|]. split; [eexists; split; reflexivity|reflexivity]. Qed.
+
+(* the same schedule prefix under the current code: the controller cannot pass the lock while the writer is
+   between check and sleep; afterwards the writer is woken and returns NULL *)
+Example ex_d2_fixed :
+  match srun true false (sinit 4 1 d2_scripts) [0; 0; 0; 0; 0; 0; 0; 1; 1; 0; 1; 0]%nat with
+  | Some s => accepting (ch s) = false /\
+              exists th, nth_error (thrs s) 0 = Some th /\ tpc th = PStart /\ tscript th = [OCommit]
+  | None => False
+  end.
+Proof. vm_compute. split; [reflexivity|]. eexists. repeat split. Qed.
+
+(* non-vacuity of the hypotheses: a reachable state with the writer parked un-notified and a true wait condition *)
+Example ex_parked : 
+  match srun true false (sinit 4 1 d2_scripts) [0; 0; 0; 0; 0; 0; 0; 0]%nat with
+  | Some s => exists th, nth_error (thrs s) 0 = Some th /\ tpc th = PParked false /\
+                snd (write_map (ch s) 3) = WBlocked
+  | None => False
+  end.
+Proof. vm_compute. eexists. repeat split. Qed.
+
+Example ex_scripts_ok : scripts_ok (joins (init 4) 1) d2_scripts.
+Proof. intros t sc Ht Hn. destruct t as [|[|[|t]]]; simpl in Hn; try congruence; try discriminate.
+  inversion Hn; subst. repeat constructor. Qed.
